@@ -3,7 +3,7 @@
    Fanout}.v, specification in Analysis/PathSpec.v, proofs in Analysis/*Proofs.v. *)
 From Coq Require Import QArith.
 From PyRTL Require Import Analysis.PathSpec Analysis.TimingProofs Analysis.PathsProofs
-  Analysis.FanoutProofs Analysis.FormulaProofs Gen.TimingFormula.
+  Analysis.FanoutProofs Analysis.FormulaProofs Analysis.CritProofs Gen.TimingFormula.
 Open Scope Z_scope.
 
 (* ---- timing ------------------------------------------------------------- *)
@@ -66,14 +66,55 @@ Theorem C17_critical_paths_sum : forall nl (dl : net -> Z) (cp_limit : Z),
 Proof. exact critical_paths_sum. Qed.
 Print Assumptions C17_critical_paths_sum.
 
-(* not proved: when cp_limit is not reached, every maximal path is returned
-   (checked by correspondence: brute-force set of maximal paths = returned set) *)
-Definition C17_critical_paths_complete_statement : Prop := forall nl (dl : net -> Z) cp_limit,
+(* What cp_limit does -- every netlist, no hypothesis.  `critical_paths_all` is the
+   same back-tracking without the limit (Timing.v `cp_enum`).  critical_path(cp_limit)
+   is a PREFIX of that enumeration; it is the whole enumeration whenever fewer than
+   cp_limit paths came back; and when something was cut off, at least cp_limit paths
+   were returned.  (Not "exactly cp_limit": the code tests the limit only at
+   non-source wires, so source arguments reached after the limit are still appended.) *)
+Theorem C17_critical_path_is_prefix : forall nl (dl : net -> Z) (cp_limit : Z),
+  exists rest, critical_paths_all nl dl = critical_path nl dl cp_limit ++ rest
+    /\ (Z.of_nat (length (critical_path nl dl cp_limit)) < cp_limit -> rest = [])
+    /\ (rest <> [] -> cp_limit <= Z.of_nat (length (critical_path nl dl cp_limit))).
+Proof. exact critical_path_is_prefix. Qed.
+Print Assumptions C17_critical_path_is_prefix.
+
+(* the unlimited enumeration contains every maximal register-free source path
+   (induction on the path from its end: the back-tracking follows exactly the
+   arguments attaining the max; fuel suffices because wfb netlists are acyclic) *)
+Theorem C17_critical_paths_all_complete : forall nl (dl : net -> Z),
   wfb nl = true ->
   (forall n, In n (nets nl) -> (dl n <? 0) = negb (is_comb (nop n)) /\ nargs n <> []) ->
-  (Z.of_nat (length (critical_path nl dl cp_limit)) < cp_limit) ->
+  (forall n, In n (nets nl) -> is_comb (nop n) = false -> has_dest n = true ->
+             is_base nl (ndest n) = true) ->
+  forall w0 p wend, is_base nl w0 = true -> cpath nl dl w0 p wend ->
+    wsum dl p = max_length nl dl -> In (w0, p) (critical_paths_all nl dl).
+Proof. exact critical_paths_all_complete. Qed.
+Print Assumptions C17_critical_paths_all_complete.
+
+(* hence: when cp_limit is not reached every maximal path is returned ... *)
+Theorem C17_critical_paths_complete : forall nl (dl : net -> Z) (cp_limit : Z),
+  wfb nl = true ->
+  (forall n, In n (nets nl) -> (dl n <? 0) = negb (is_comb (nop n)) /\ nargs n <> []) ->
+  (forall n, In n (nets nl) -> is_comb (nop n) = false -> has_dest n = true ->
+             is_base nl (ndest n) = true) ->
+  Z.of_nat (length (critical_path nl dl cp_limit)) < cp_limit ->
   forall w0 p wend, is_base nl w0 = true -> cpath nl dl w0 p wend ->
     wsum dl p = max_length nl dl -> In (w0, p) (critical_path nl dl cp_limit).
+Proof. exact critical_paths_complete. Qed.
+Print Assumptions C17_critical_paths_complete.
+
+(* ... and the returned set is EXACTLY the set of maximal source paths *)
+Theorem C17_critical_paths_exact : forall nl (dl : net -> Z) (cp_limit : Z),
+  wfb nl = true ->
+  (forall n, In n (nets nl) -> (dl n <? 0) = negb (is_comb (nop n)) /\ nargs n <> []) ->
+  (forall n, In n (nets nl) -> is_comb (nop n) = false -> has_dest n = true ->
+             is_base nl (ndest n) = true) ->
+  Z.of_nat (length (critical_path nl dl cp_limit)) < cp_limit ->
+  forall w0 p, In (w0, p) (critical_path nl dl cp_limit) <->
+    (is_base nl w0 = true /\ exists wend, cpath nl dl w0 p wend /\ wsum dl p = max_length nl dl).
+Proof. exact critical_paths_exact. Qed.
+Print Assumptions C17_critical_paths_exact.
 
 (* ---- max_freq and the default table (regenerated from the source) -------- *)
 
@@ -211,6 +252,16 @@ Example C17_example_critical :
       (2, [mkNet OpAdd [1; 2] 3; mkNet OpNot [3] 4; mkNet OpAnd [3; 4] 5; mkNet (OpMemRd 0) [5] 6;
            mkNet OpW [6] 7]) ].
 Proof. vm_compute. reflexivity. Qed.
+
+(* cp_limit = 1 on the example: the limit is tested only at non-source wires, so
+   both source arguments of the adder are appended -- 2 paths, a prefix of the 4 *)
+Example C17_example_limit :
+  length (critical_path ex_nl (tab_delay ex_tab ex_nl) 1) = 2%nat
+  /\ critical_path ex_nl (tab_delay ex_tab ex_nl) 1
+     = firstn 2 (critical_paths_all ex_nl (tab_delay ex_tab ex_nl))
+  /\ critical_paths_all ex_nl (tab_delay ex_tab ex_nl)
+     = critical_path ex_nl (tab_delay ex_tab ex_nl) 100.
+Proof. vm_compute. repeat split; reflexivity. Qed.
 
 Example C17_example_values :
   map (assoc (timing_map ex_nl (tab_delay ex_tab ex_nl))) [1; 2; 3; 4; 5; 6; 7]
